@@ -2,6 +2,7 @@
 from __future__ import annotations
 
 import os
+import time
 
 import numpy as np
 from hypothesis import strategies as st
@@ -272,7 +273,8 @@ def histories(draw, tier):
         queries.append(q)
     # how sample indices are passed to writer and reader: Python ints, or the numpy integers that index arithmetic yields
     at = draw(st.sampled_from(["int", "int", "i64", "u64"]))
-    return {"p": p, "specs": specs, "steps": steps, "queries": queries, "at": at}
+    # clock of the host that is writing the (unfinished) next file, relative to this one: the same, or ahead by 5 min / 3 h
+    return {"p": p, "specs": specs, "steps": steps, "queries": queries, "at": at, "junk_skew": draw(st.sampled_from([0, 0, 300, 10800]))}
 
 
 def strategy(tier):
@@ -438,7 +440,9 @@ def run_case(case, visible_hook=None):
         # ... except one: another process has just begun the file of the period after the newest sample (created, not yet
         # a valid HDF5 file).  Readers skip it; none may remove it - the other process would lose what it is writing
         junk = None
-        if case.get("junk", True) and keys_all and C >= 60:  # (its age is judged against the file cadence: a wide margin)
+        # (its age is judged against the file cadence: a wide margin - or a modification time well in the future)
+        if case.get("junk", True) and keys_all and (C >= 60 or case.get("junk_skew", 0) > 0):
+            res.cls("unfinished-file-of-another-process" + (":clock-ahead" if case.get("junk_skew", 0) else ""))
             jt = (M.exact_file_ts(keys_all[-1], n, d, C) // C + 1) * C
             jp = os.path.join(md, os.path.dirname(M.exact_path(M.boundary_index(jt // C, n, d, C), n, d, C, S, p["prefix"])), "%s@%d.h5" % (p["prefix"], jt))
             if not os.path.exists(jp):
@@ -449,7 +453,10 @@ def run_case(case, visible_hook=None):
         for qi, q in enumerate(case["queries"]):
             res.evaluations += 1
             if junk is not None and os.path.exists(junk):
-                os.utime(junk)  # the other process is still writing: modified "now"
+                # the other process is still writing: modified "now" - by ITS clock, which may be ahead of this host's
+                # (files on a shared file system; a clock stepped back): a modification time in the future is "new" too
+                t_ = time.time() + case.get("junk_skew", 0)
+                os.utime(junk, (t_, t_))
             r = readers[qi % len(readers)]
             a, b = q["a"], q["b"]
             inr = [k for k in keys_all if a <= k <= b]
